@@ -82,7 +82,7 @@ META = {
     "technique": "abstract interpretation of the array kernels to closed-form terms on small symbolic grids (sympy as term "
                  "normaliser, norm symbols for square roots); identities of the property decided as polynomial identities",
 }
-MIN_INSTANCES = {"R1": 12, "R2": 66, "R3": 39, "R4": 32, "R5": 12, "R6": 5, "R7": 5, "R8": 21}
+MIN_INSTANCES = {"R1": 12, "R2": 66, "R3": 39, "R4": 32, "R5": 12, "R6": 5, "R7": 4, "R8": 21}
 
 
 # ======================================================================================================
@@ -3414,7 +3414,8 @@ def run(ctx: Ctx) -> None:
                 log = []
                 out = run_kernel(ctx.repo, inst, log=log)
                 check_instance(ctx, inst, out, fn)
-            if out.fault is None:
+            if out.fault is None and (ctx.tier == "thorough" or "patchy" not in inst.name):
+                # (quick tier: the patchy instance takes the decisions of the oriented and of the unoriented instance; it is skipped)
                 try:
                     scale_clause(ctx, inst, log, fn)
                 except Undecided as e:
@@ -3470,7 +3471,7 @@ MUTANTS = [
        "subsimplex_heights = self.face_centers[:, faceno] - temp_cell_centers[:, faceno]", "R6"),
     _m("3d-orientation-transposed-lookup", "np.asarray(self.cell_faces[face_numbers, cell_numbers])", "np.asarray(self.cell_faces[edge_numbers, cell_numbers])", "*"),
     # --- plain formula faults (controls: any test would see them too)
-    _m("2d-subsimplex-area-factor", "subsimplex_normals = 0.5 * np.cross(", "subsimplex_normals = np.cross(", "R4", control=True),
+    _m("2d-subsimplex-area-factor", "subsimplex_normals = 0.5 * np.cross(", "subsimplex_normals = np.cross(", "R4"),
     _m("3d-subnormal-scale", "            )\n            / 2\n        )", "            )\n            / 3\n        )", "R2"),
     _m("1d-centre-not-midpoint", "self.cell_centers = 0.5 * (xf1 + xf2)", "self.cell_centers = 0.5 * (xf1 + xf1)", "R5"),
     # --- independently seeded changes (campaign of the coordinator)
